@@ -310,6 +310,9 @@ structure FnDef where
   captures : List Name
   /-- locals assigned in the body that are not parameters (part of `local_count`) -/
   bodyLocals : Nat := 0
+  /-- ids read by the body that are neither locals nor captures when the function is created
+  (e.g. exported later): the rest of `accessed_non_locals`, resolved when the function runs -/
+  lates : List Name := []
   deriving Repr, Inhabited
 
 def mapEntryNames : List MapEntry → List Name
@@ -577,6 +580,28 @@ def readName (d : FnDef) (rs : Regs) (n : Name) : Val :=
   match regOf d n with
   | some r => getReg rs r
   | none => .null
+
+/-- the NON_LOCAL_ACCESS flag of `compile_function`: `accessed_non_locals.len() > captures.len()`
+with `accessed_non_locals` = captured ids ++ late-bound ids. The default values, although they share
+the capture list, do not count. A function without the flag has no access to the module's exports. -/
+def FnDef.nonLocalAccess (d : FnDef) : Bool := d.captures.length + d.lates.length > d.captures.length
+
+def lookupName (n : Name) : List (Name × Val) → Option Val
+  | [] => none
+  | (m, v) :: r => if n == m then some v else lookupName n r
+
+/-- value of a late-bound id when the body runs: a register if the compiler assigned one, otherwise
+the export of that name at call time (`exports`), provided the function was created with access to
+the non-locals -/
+def readLate (d : FnDef) (rs : Regs) (exports : List (Name × Val)) (n : Name) : Except Err Val :=
+  match regOf d n with
+  | some r => .ok (getReg rs r)
+  | none =>
+    if d.nonLocalAccess then
+      match lookupName n exports with
+      | some v => .ok v
+      | none => .error .notfound
+    else .error .notfound
 
 /-- bind + prologue; result: `self` and the values of all named variables -/
 def enter (d : FnDef) (bound : Except Err Regs) : Except Err (Val × List Val) := do
